@@ -421,6 +421,10 @@ int EGLPNUM_TYPENAME_ILLprice_build_mpartial_info (
 	p->ngroups = nelems / p->k;
 	if (extra != 0)
 		p->ngroups++;
+	/* nothing to price (no rows, or no non-basic columns): one empty group keeps
+	 * the group arithmetic of the callers well defined */
+	if (nelems == 0)
+		p->ngroups = 1;
 
 	ILL_SAFE_MALLOC (p->gstart, p->ngroups, int);
 	ILL_SAFE_MALLOC (p->gshift, p->ngroups, int);
@@ -431,7 +435,13 @@ int EGLPNUM_TYPENAME_ILLprice_build_mpartial_info (
 
 	p->bsize = 0;
 
-	if (extra != 0)
+	if (nelems == 0)
+	{
+		p->gstart[0] = 0;
+		p->gshift[0] = 1;
+		p->gsize[0] = 0;
+	}
+	else if (extra != 0)
 	{
 		p->gstart[0] = 0;
 		p->gshift[0] = 1;
